@@ -175,6 +175,13 @@ def c14_cases(ctx, binary, root, rnd, n):
         cli_path = os.path.join(d, "cli") if use_cli else None
         if use_cli:
             args += ["--path", cli_path]
+        # a configuration file that merely lies in the working directory is not a configuration of the run: only --toml names one
+        decoy = None
+        if rnd.random() < (0.6 if not use_toml else 0.3):
+            decoy = rnd.choice(["Solstat.toml", "solstat.toml", ".solstat.toml", "contracts/Solstat.toml"])
+            if decoy.startswith("contracts/") and not dirs["contracts"]:
+                decoy = "Solstat.toml"
+            open(os.path.join(d, decoy), "w").write("path = '%s'\noptimizations = [\"sstore\"]\nvulnerabilities = []\nqa = []\n" % os.path.join(d, "alt"))
         code, rep, err = run_solstat(binary, d, args)
         req = "\t".join(["RESOLVE", hexs(cli_path), toml_enc, "1" if dirs["contracts"] else "0", str(code), rep.hex() if rep is not None else "-"])
         # oracle, in the property's words (independent of the Lean model)
@@ -195,7 +202,7 @@ def c14_cases(ctx, binary, root, rnd, n):
                 if files and files != {want_dir}:
                     verdict, why = "VIOL", f"analysed directory {sorted(files)} but the configuration names {want_dir}"
         cases.append({"args": [a.replace(d, "<case>") for a in args], "toml": sel if use_toml else None, "contracts_dir": dirs["contracts"],
-                      "exit": code, "report_written": rep is not None, "request": req, "oracle": verdict, "why": why})
+                      "exit": code, "report_written": rep is not None, "decoy_config_in_cwd": decoy, "request": req, "oracle": verdict, "why": why})
         shutil.rmtree(d, ignore_errors=True)
     return cases
 
@@ -304,4 +311,72 @@ def c18_cases(ctx, binary, root, rnd, n, use_strace=False):
                       "report_sha1": hashlib.sha1(reports[0][1] or b"").hexdigest(), "report_bytes": len(reports[0][1] or b""),
                       "strace": writes is not None, "problems": problems})
         shutil.rmtree(d, ignore_errors=True)
+    return cases
+
+
+QUIET_FILES = [("OnlyComments.sol", "// nothing here\n/* pragma solidity ^0.8.0; contract C { } */\n"), ("Empty.sol", ""),
+               ("api/IThing.sol", "// SPDX-License-Identifier: MIT\npragma solidity 0.8.19;\ninterface IThing {\n    function poke() external;\n}\n"),
+               ("Skipped.t.sol", "not solidity at all"), (".hidden.swp", "\x00\x01")]
+
+
+def entry_lines(report):
+    import re
+    return sorted(l for l in (report or b"").decode("utf-8", "replace").split("\n") if re.match(r"^- .+:\d+$", l))
+
+
+def history_cases(binary, root, rnd):
+    """Sequences of runs over DIFFERENT directories from one working directory.  After the last run the report must be what a
+    run over the last directory alone, in a fresh working directory, produces: a directory without findings gives a report
+    without entries even when an earlier run left a report; a directory whose report happens to have the same length as the
+    previous one still gets its own report."""
+    pad = "".join(f"// padding line {i}\n" for i in range(12))
+    dirs = {}
+    a = os.path.join(root, "trees", "a")
+    make_fixture(a, rnd, names={"Everything.sol", "Old.sol", "sub/Inner.sol"})
+    dirs["findings_a"] = a
+    # same file names as `a`, every construct twelve / thirteen lines further down (the two reports have the same length)
+    for name, extra in (("shift12", pad), ("shift13", pad + "// one more line\n")):
+        dd = os.path.join(root, "trees", name)
+        for rel, content in (("Everything.sol", CONTRACT_ALL), ("core/Old.sol", CONTRACT_PRE)):
+            pth = os.path.join(dd, rel)
+            os.makedirs(os.path.dirname(pth), exist_ok=True)
+            open(pth, "w").write(extra + content)
+        dirs[name] = dd
+    q = os.path.join(root, "trees", "quiet")
+    for rel, content in QUIET_FILES:
+        pth = os.path.join(q, rel)
+        os.makedirs(os.path.dirname(pth), exist_ok=True)
+        open(pth, "w", encoding="latin-1").write(content)
+    os.makedirs(os.path.join(q, "emptydir"), exist_ok=True)
+    dirs["quiet"] = q
+    fresh = {}
+    for name, dd in dirs.items():
+        cwd = os.path.join(root, "fresh_" + name)
+        os.makedirs(cwd)
+        fresh[name] = run_solstat(binary, cwd, ["--path", dd])
+    cases = []
+    for seq in (["findings_a", "quiet"], ["quiet", "findings_a"], ["shift12", "shift13"], ["shift13", "shift12"], ["findings_a", "shift12", "quiet"],
+                ["quiet", "quiet"], ["findings_a", "findings_a"]):
+        cwd = os.path.join(root, "seq_" + "_".join(seq))
+        os.makedirs(cwd)
+        last = None
+        for name in seq:
+            last = run_solstat(binary, cwd, ["--path", dirs[name]])
+        f = fresh[seq[-1]]
+        problems = []
+        if last[0] != 0 or f[0] != 0:
+            problems.append(f"exit codes {last[0]} (after the sequence) / {f[0]} (fresh)")
+        if (last[1] or b"") != (f[1] or b""):
+            problems.append("stale: the report after runs over %s differs from the report of a run over %s alone" % (" then ".join(seq), seq[-1]))
+        ents = entry_lines(last[1])
+        if seq[-1] == "quiet" and ents:
+            problems.append("stale: a directory without findings, yet the report lists %d entries (%s ...)" % (len(ents), ents[0]))
+        if seq[-1] != "quiet" and ents != entry_lines(f[1]):
+            problems.append("stale: the entries listed after the sequence are not those of the last directory")
+        if seq[-1] != "quiet" and not entry_lines(f[1]):
+            problems.append("the fixture with findings yields a report without entries")
+        cases.append({"mode": "history", "sequence": seq, "report_bytes": len(last[1] or b""), "fresh_report_bytes": len(f[1] or b""),
+                      "report_present": last[1] is not None, "fresh_report_present": f[1] is not None,
+                      "entries": len(ents), "problems": problems,
+                      "report_sha1": hashlib.sha1(last[1] or b"").hexdigest()})
     return cases
